@@ -475,6 +475,15 @@ def rule_o6(repo, col):
     if seen_fi < 2:
         col.fail("O6", m, f.node, "the number tier no longer orders a float before an equal integer (both directions)",
                  construct="def struct_cmp: float/integer tie-break", function="struct_cmp")
+    # the number tier compares the two VALUES as floats (mixed int/float pairs must not be truncated)
+    numtier = [t for t in tiers if t[0] == "_is_number"]
+    if numtier:
+        inner = numtier[0][2]
+        cmps = [n for n in ast.walk(inner) if isinstance(n, ast.Call) and dotted(n.func) == "compare"]
+        okn = bool(cmps) and all([norm(x) for x in c.args] == ["float(%s)" % a, "float(%s)" % b] for c in cmps)
+        col.decide("O6", m, cmps[0] if cmps else inner, okn, "numbers are compared by value: compare(float(a), float(b))",
+                   "two numbers must be compared by value, compare(float(a), float(b)), for every pair of numeric types; found %s (e.g. int() truncation makes 1.5 tie with 1)"
+                   % [norm(c) for c in cmps], **({} if cmps else {"construct": "number tier comparison", "function": "struct_cmp"}))
     # compound: arity, then functor, then args
     order = []
     for st in f.node.body:
